@@ -379,6 +379,7 @@ pub fn worker(idx: usize) {
         let max_sched = j["max"].as_u64().unwrap_or(2_000_000);
         let start: Vec<u8> = j["prefix"].as_array().map(|a| a.iter().map(|x| x.as_u64().unwrap_or(0) as u8).collect()).unwrap_or_default();
         let expand_only = j["expand"].as_bool().unwrap_or(false);
+        DEADLINE.with(|d| d.set(j["deadline"].as_u64()));
         emit(&format!("case {}", ci));
         match prop.as_str() {
             "C04" => {
@@ -401,12 +402,18 @@ pub fn worker(idx: usize) {
     });
 }
 
+thread_local! {
+    /// wall-clock deadline (seconds since the epoch) of the job being served
+    static DEADLINE: std::cell::Cell<Option<u64>> = const { std::cell::Cell::new(None) };
+}
+
 /// Explores one (sub)tree of schedules of a case and renders the job result.
 pub fn explore_case(bound: usize, start: Vec<u8>, expand_only: bool, max_sched: u64, mut run_one: impl FnMut(&[u8]) -> (ExecResult, Vec<Judgement>, String)) -> String {
     let mut viols: Vec<Value> = vec![];
     let mut outcomes: std::collections::BTreeMap<String, u64> = Default::default();
     let mut machinery: Vec<String> = vec![];
-    let (stats, kids) = crate::sched::explore_from(bound, start, expand_only, max_sched, |prefix| {
+    let deadline = DEADLINE.with(|d| d.get()).map(|s| std::time::UNIX_EPOCH + std::time::Duration::from_secs(s));
+    let (stats, kids) = crate::sched::explore_until(bound, start, expand_only, max_sched, deadline, &mut |prefix| {
         let (res, js, outcome) = run_one(prefix);
         if let Some(d) = &res.diverged {
             machinery.push(d.clone());
@@ -454,11 +461,13 @@ pub fn run(check: &mut Check, prop: &str, cases: Vec<CaseInfo>, policies: &[&str
     let mut per_case: std::collections::BTreeMap<(usize, String), (u64, Vec<u64>, std::collections::BTreeMap<String, u64>, u64, bool)> = Default::default();
     // phase 1: run the default schedule of every case and collect its children;
     // phase 2: one job per child subtree, spread over all workers
+    let budget_s: u64 = std::env::var("VCHECK_BUDGET_S").ok().and_then(|s| s.parse().ok()).unwrap_or(if tier == Tier::Quick { 50 } else { 2400 });
+    let deadline = std::time::SystemTime::now().duration_since(std::time::UNIX_EPOCH).map(|d| d.as_secs()).unwrap_or(0) + budget_s;
     let mut jobs = vec![];
     let mut meta: Vec<(usize, String)> = vec![];
     for (ci, _c) in cases.iter().enumerate() {
         for p in policies {
-            jobs.push(json!({"case": ci, "policy": p, "max": max_per_case, "prefix": [], "expand": true}).to_string());
+            jobs.push(json!({"case": ci, "policy": p, "max": max_per_case, "prefix": [], "expand": true, "deadline": deadline}).to_string());
             meta.push((ci, p.to_string()));
         }
     }
@@ -509,7 +518,7 @@ pub fn run(check: &mut Check, prop: &str, cases: Vec<CaseInfo>, policies: &[&str
                     }
                     if phase == 0 {
                         for k in v["children"].as_array().cloned().unwrap_or_default() {
-                            next_jobs.push(json!({"case": ci, "policy": pol, "max": max_per_case, "prefix": k, "expand": false}).to_string());
+                            next_jobs.push(json!({"case": ci, "policy": pol, "max": max_per_case, "prefix": k, "expand": false, "deadline": deadline}).to_string());
                             next_meta.push((ci, pol.clone()));
                         }
                     }
@@ -550,6 +559,7 @@ pub fn run(check: &mut Check, prop: &str, cases: Vec<CaseInfo>, policies: &[&str
     check.cov("schedules_by_preemptions", json!(by_bound));
     check.cov("preemption_bound_completed_min_over_cases", json!(min_bound_completed));
     check.cov("schedule_cap_hit", json!(capped));
+    check.cov("wall_budget_s", json!(budget_s));
     check.cov("exhaustive", json!(!capped));
     check.cov("max_points_per_execution", json!(max_points));
     check.cov("distinct_outcomes", json!(outcomes));
